@@ -32,6 +32,11 @@ ONE = {
     'C03c': 'ProcessWorker._run reports success from an else: clause of the try (same slip as C16b, found independently for C03)',
     'C12c': 'the SIGTERM handler also kills the helper process of every registered context: the workers created inside a context lose the only process that would stop them and outlive the server',
     'C16c': 'ProcessWorker._get_result takes over the reported user_state only when it is not None: a child whose last assignment is None leaves the parent with the stale value',
+    'C05d': 'the three do_work loops drop the list() around the deep copy of the default args: tuple defaults stay tuples and the slice assignment kills the worker on its first input',
+    'C06d': '_recv_exactly replaced by one recv(size, MSG_WAITALL) (third independent occurrence of this slip): a result body cut short by a kill reaches the unpickler, the forwarding thread dies and no end marker is ever written',
+    'C08d': 'Pool.run keeps a result that arrives from a worker already declared dead: with retry on, the re-queued input is answered twice',
+    'C13d': 'the MRO walk of the metaclass stops at the first remote-aware __getstate__: a reduce hook further up no longer wins, and a remote/plain/remote chain is no longer rejected',
+    'C17d': '_get_restart_args forwards only truthy options: userid 0, run=False, set_names=False and an empty / zero user_state are lost across restart()',
     'C19b': 'active_children() prunes in two critical sections: a registration in between is lost',
 }
 for d in sorted(glob.glob('/verif/seeded/*/')):
